@@ -75,6 +75,9 @@ def labelFilesVal (files : List (List Line)) (k : Key) : Option Str :=
 def finalLabel (files : List (List Line)) (labels : List (Key × Str)) (k : Key) : Option Str :=
   orElse (lookup k labels) (labelFilesVal files k)
 
+/-- no file exists at path `p`: the path is absent, or one of its parents is a regular file -/
+def Missing (fs : FS) (p : Str) : Prop := fs p = none ∨ fs p = some .notdir
+
 /-- the lines of the env files that exist as regular files, in `env_file` order -/
 def envContents (fs : FS) (efs : List EnvFile) : List (List Line) :=
   efs.filterMap fun f => match fs f.path with
